@@ -318,6 +318,26 @@ pub fn run_exit_contract(
                 );
                 return out;
             }
+        } else if kind == "stats-to-stdout" {
+            // the same run with the statistics written to stdout: the same messages are shown, the same status
+            if fatal0 || fatal_reported(&r) {
+                continue;
+            }
+            let a: Vec<&str> = shown0.iter().map(|m| m.text.as_str()).collect();
+            let b: Vec<&str> = shown.iter().map(|m| m.text.as_str()).collect();
+            if a != b || r.status != r0.status {
+                out.fail = fail(
+                    "stats-to-stdout-changes-what-is-shown",
+                    format!(
+                        "statistics to stdout instead of a file: {} messages shown (file run: {}), status {} (file run: {}) [cmd: {cmd}]",
+                        b.len(),
+                        a.len(),
+                        r.status,
+                        r0.status
+                    ),
+                );
+                return out;
+            }
         } else if kind == "ignored-output-option" {
             // the same check with an output destination that is accepted and ignored (a file or the word stdout) and
             // the filter it requires: no display option is active - what the statistics file counts is what is shown
